@@ -13,7 +13,7 @@ DRAFTS = (3, 4, 6, 7)
 NAMES = ["a", "", "a/b", "a~b", "~01", "~1", "%", "%25", "a b", "é", "0", "01", "#", "?", '"', "\\", "~0", "/", "~",
          "\U0001F600", "x.y", "$ref", "definitions", "a%2Fb", "xs:int", "a:b/c"]
 ARRS = ["local", "rootid", "rootidhash", "absref", "relid", "storeabs", "storerel", "storeownid", "chain", "arrayelem",
-        "nestedabs", "nestedrel", "mixed", "shadow", "pctsep", "claimed"]
+        "nestedabs", "nestedrel", "mixed", "shadow", "pctsep", "claimed", "twobases"]
 _CLS = None
 _TR = None
 
@@ -106,7 +106,25 @@ def build(d, T, pos, name, arr):
                  "http://x.invalid/other.json": {idk: "http://x.invalid/defs.json", "definitions": {name: never}}})
     if arr == "urn":
         return first(dict(tref(dref), definitions={name: sub}), idk, "urn:example:root"), {}
+    if arr == "twobases":
+        # ONE {"$ref": ...} object (the same Python object) below two nested ids: a different document under each base
+        r = {"$ref": "defs.json" + dref}
+        second = first(set_at(T, pos, r), idk, "http://x.invalid/n/b.json")
+        return ({idk: ROOT, wrap: [{idk: "http://x.invalid/a/b.json", wrap: [r]}, second]},
+                {"http://x.invalid/a/defs.json": {"definitions": {name: {}}},
+                 "http://x.invalid/n/defs.json": {"definitions": {name: sub}}})
     raise KeyError(arr)
+
+
+def share_refs(S, seen):
+    """the same schema with equal {"$ref": text} objects being ONE Python object (a programmatically built schema)"""
+    if isinstance(S, dict):
+        if list(S) == ["$ref"] and isinstance(S["$ref"], str):
+            return seen.setdefault(S["$ref"], S)
+        return {k: share_refs(v, seen) for k, v in S.items()}
+    if isinstance(S, list):
+        return [share_refs(v, seen) for v in S]
+    return S
 
 
 def loc_canon(o):
@@ -161,8 +179,10 @@ _INST = None
 def replay_one(task):
     d, ex = task
     S, inl = dec(ex["S"]), dec(ex["inl"])
+    if ex.get("arr") == "twobases":
+        S = share_refs(S, {})
     store = {dec_str(m["u"]): dec(m["doc"]) for m in ex["more"]}
-    safe = ex.get("arr") in ("local", "storeabs", "storerel", "storeownid", "chain", "arrayelem", "nestedrel", "mixed", "pctsep", "claimed", "otherid")
+    safe = ex.get("arr") in ("local", "storeabs", "storerel", "storeownid", "chain", "arrayelem", "nestedrel", "mixed", "pctsep", "claimed", "otherid", "twobases")
     got, events = run_real(d, S, store, _INST, via_handler=(len(repr(S)) % 2 == 0), foreign_base=(safe and len(repr(S)) % 3 == 0))
     got_inl, _ = run_real(d, inl, {}, _INST)
     probs = []
@@ -242,9 +262,9 @@ def main(args):
     _setup()
     ck.rule = ("scenarios = final states of the Extract machine spec/mc/MC_Ref: 6 reference-free base schemas per draft x every "
                "subschema position x %d definition names (incl. '', a/b, a~b, ~01, ~1, %%, %%25, 'a b', e-acute, 0, 01, #, ?, "
-               "quote, backslash) x 16 base-URI/store arrangements (local; absolute root id with/without '#'; absolute "
+               "quote, backslash) x 21 base-URI/store arrangements (local; absolute root id with/without '#'; absolute "
                "reference string; relative root id; store document reached by absolute / relative reference, with own id; "
-               "two-reference chain; array element; nested id with absolute / relative reference; a cross-document reference under not/disallow before a local one; the other drafts' id keyword on the way (must be inert); recursion through '#' compared with a 4-fold unfolding; urn base) x 13 "
+               "two-reference chain; array element; nested id with absolute / relative reference; a cross-document reference under not/disallow before a local one; the other drafts' id keyword on the way (must be inert); recursion through '#' compared with a 4-fold unfolding; urn base; a store document under the root's id; percent-encoded separators; a document claiming another's URL; the empty reference with siblings; ONE shared {\"$ref\"} object under two nested bases designating two documents) x 13 "
                "instances; TLC checks Transparent and SameAsOriginal on each and exports the expected located errors, "
                "replayed on real validators (other documents in the store or, alternately, behind a retrieval handler; tracing resolver) and compared with the real errors of the inlined "
                "schema. Random: extraction at random positions of random deep schemas, judged by TLC (Trace_Errors C02 "
